@@ -118,6 +118,7 @@ def gen_case(rng, forced=None):
         if rng.random() < 0.25:
             case['nonbond'].append([a, b, round(rng.uniform(0.1, 0.6), 4), round(rng.uniform(0.5, 5), 4)])
     case['atypes'] = {t: [round(rng.uniform(0.2, 0.6), 4), round(rng.uniform(0.5, 5), 4)] for t in types}
+    case['mol_lines'] = split_molecule_lines(rng, case['n_inst'])
     return case
 
 
@@ -145,8 +146,25 @@ def top_of(case):
             out.append(f"[ {sec} ]")
             for it in case['inters'][sec]:
                 out.append(' '.join(str(i + 1) for i in it['idx']) + ' ' + ' '.join(it['params']))
-    out += ['[ system ]', 'x', '[ molecules ]', f"MOL {case['n_inst']}"]
+    if case.get('mol_lines'):
+        # the instances of MOL spread over several [ molecules ] lines, possibly with another molecule type in between
+        if any(n == 'OTH' for n, _ in case['mol_lines']):
+            out += ['[ moleculetype ]', 'OTH 1', '[ atoms ]', f"1 {case['types'][0]} 1 OT O1 1 0.0 12.0"]
+        out += ['[ system ]', 'x', '[ molecules ]'] + [f"{n} {k}" for n, k in case['mol_lines']]
+    else:
+        out += ['[ system ]', 'x', '[ molecules ]', f"MOL {case['n_inst']}"]
     return '\n'.join(out) + '\n'
+
+
+def split_molecule_lines(rng, n_inst):
+    """n_inst instances of MOL written as one or several lines"""
+    if n_inst < 2 or rng.random() < 0.5:
+        return None
+    cut = rng.randint(1, n_inst - 1)
+    lines = [('MOL', cut), ('MOL', n_inst - cut)]
+    if rng.random() < 0.5:
+        lines.insert(1, ('OTH', rng.randint(1, 2)))
+    return lines
 
 
 def run_impl(case):
@@ -165,6 +183,8 @@ def run_impl(case):
             return {'error': type(exc).__name__, 'msg': str(exc)[:200]}
     inst = []
     for mol in top.molecules:
+        if mol.mol_name != 'MOL':
+            continue
         d = {}
         for sec in SECTIONS:
             d[sec] = [([int(a) for a in it.atoms], [str(x) for x in it.parameters]) for it in mol.molecule.interactions.get(sec, [])]
